@@ -26,6 +26,7 @@ Added while testing against seeded changes: Also (K8 by abstract evaluation): Hu
 a grid of ranges including empty ones.
 Third round: unterminated-line-flagged — the loop of internal_diff that writes the produced lines writes the no-newline marker for any
 line without a newline (or the generator has no plain `yield prefix + line` left and carries the marker itself).
+conflict-constructible — PatchConflict.__init__ applies no str-argument method to a parameter that the raise site fills with bytes.
 Does not decide: that diff followed by patch is the identity (patiencediff and the Rust parser are outside this rule).
 """
 CLASSES = {"ContextLine": b" ", "InsertLine": b"+", "RemoveLine": b"-"}
@@ -183,8 +184,22 @@ def run(ctx):
     kinds_plain = sorted({y.value.left.value for y in ylines})
     form_b = not ylines and _has_marker(fud)
     ctx.check("unterminated-line-flagged", f"{DF}:internal_diff/unified_diff_bytes", form_a or form_b, "the '\\\\ No newline at end of file' marker follows any written line that lacks its newline — context, removed and added lines alike", construct=f"write loop marks every line: {form_a}; plain yields without marker for {kinds_plain}", message=f"an unterminated last line is no longer flagged for every kind of hunk line (plain yields without the marker for {kinds_plain}): when both texts end in the same unterminated line and a change lies within the context, the diff ends in a context line without marker and terminator, and applying it back to the text it was made from raises a conflict")
+    # ---- the conflict that is raised can be constructed from what the raise site passes --------------------------------
+    fpc = repo.func(PF, "PatchConflict.__init__")
+    wpc = f"{PF}:PatchConflict.__init__"
+    pparams = [a.arg for a in fpc.args.args][1:]
+    raises_pc = [n_.exc for q_, f_ in repo.module(PF).functions().items() for n_ in ast.walk(f_) if isinstance(n_, ast.Raise) and isinstance(n_.exc, ast.Call) and norm(n_.exc.func) == "PatchConflict"]
+    ctx.require(bool(raises_pc), f"{PF}: no `raise PatchConflict(...)` found")
+
+    def _is_bytes(e):
+        return (isinstance(e, ast.Constant) and isinstance(e.value, bytes)) or (isinstance(e, ast.Call) and call_attr(e) == "join" and isinstance(e.func.value, ast.Constant) and isinstance(e.func.value.value, bytes)) or (isinstance(e, ast.BinOp) and (_is_bytes(e.left) or _is_bytes(e.right)))
+
+    bytes_params = {pparams[i] for r_ in raises_pc for i, a_ in enumerate(r_.args) if i < len(pparams) and _is_bytes(a_)}
+    clash = [f"L{c.lineno}:{norm(c)[:50]}" for c in calls_in(fpc) if isinstance(c.func, ast.Attribute) and isinstance(c.func.value, ast.Name) and c.func.value.id in bytes_params and any(isinstance(a_, ast.Constant) and isinstance(a_.value, str) for a_ in c.args)]
+    ctx.check("conflict-constructible", wpc, not clash, f"PatchConflict.__init__ treats {sorted(bytes_params)} (bytes at the raise site) with bytes arguments", construct="; ".join(clash), message=f"PatchConflict.__init__ calls a str-argument method on a value the patcher passes as bytes ({'; '.join(clash)}): raising the conflict fails with TypeError, so a diff applied to a text that does not match its context is not reported as a conflict (callers catching PatchConflict / BzrError never see it)")
 
 MUTANTS = [
+    Mutant("PatchConflict strips bytes with a str argument again (fix reverted)", PF, '        self.patch_line = patch_line.rstrip(\n            b"\\n" if isinstance(patch_line, bytes) else "\\n"\n        )\n', '        self.patch_line = patch_line.rstrip("\\n")\n', expect="conflict-constructible"),
     Mutant("no-newline marker dropped from the write loop", "breezy/diff.py", '        to_file.write(line)\n        if not line.endswith(b"\\n"):\n            to_file.write(b"\\n\\\\ No newline at end of file\\n")\n', '        to_file.write(line)\n', expect="unterminated-line-flagged"),
     Mutant("leading lines copied with islice", PF, "        while line_no < hunk.orig_pos:\n            orig_line = next(orig_lines)\n            yield orig_line\n            line_no += 1\n", "        from itertools import islice\n\n        for orig_line in islice(orig_lines, hunk.orig_pos - line_no):\n            yield orig_line\n            line_no += 1\n", expect="short-text-detected"),
     Mutant("no-newline marker only for the tail of a hunk", PF, "        terminator = b\"\\n\" + NO_NL if not self.contents.endswith(b\"\\n\") else b\"\"\n        return leadchar + self.contents + terminator", "        return leadchar + self.contents", expect="line-self-terminating"),
